@@ -281,8 +281,8 @@ def run(chk, prog):
     reeval(chk, prog, "C05", lambda i: i["rule"] == "R3" and ("copied without arithmetic" in i["what"] or "rebuilt on every path" in i["what"]), "R6", "R6-wake-map-holds-no-history", 2)
     # ---- R7: the last record of an interrupted run is a completed step -----------------------------------------------------------------------------------
     # "continuing from a results file": the file may come from a run stopped with Ctrl+C; its last record is the state after a whole step only
-    # if nothing but the loop condition and the closing message reacts to the abort flag (decided under C14 R2; re-evaluated here)
-    reeval(chk, prog, "C14", lambda i: i["rule"] == "R2" and ("nobody reads the flag" in i["what"] or "loop condition reads the flag" in i["what"] or "only other reader" in i["what"]),
-           "R7", "R7-abort-flag-readers", 2)
+    # if no transport code outside main reacts to the abort flag (decided under C14 R2; re-evaluated here; what main itself does with the
+    # flag after the step is C14's and C10's business)
+    reeval(chk, prog, "C14", lambda i: i["rule"] == "R2" and "nobody reads the flag" in i["what"], "R7", "R7-abort-flag-readers", 1)
     chk.notes.append("C11: record selection and guarded read, refresh before the first step for every start kind, block agreement, refusal discipline. "
                      "NOT decided: numerical equality of a split run and an uninterrupted run.")
